@@ -9,7 +9,64 @@ Open Scope Z_scope.
 Inductive case :=
 | Trace (maxpool : Z) (t : list lc)
 | PoolSeq (maxpool : Z) (ops : list sop)
-| Hung (t : list lc).   (* the scenario did not return (or panicked); t = what had been recorded by then *)
+| Hung (t : list lc)    (* the scenario did not return (or panicked); t = what had been recorded by then *)
+| Exchange (steps : list bw_step).   (* family E: the datagrams of one scripted block-wise exchange, one window each *)
+
+(* ---- comparison of an observed window with the model's path, up to the names of the objects ----
+   canon renames the objects in the order of their first occurrence; the hand-out of a recycled object
+   (Reacq o true) starts a new object and leaves no event (the model's objects are lives, not addresses); Rec
+   events are left out on both sides (a full pool refuses a release: Rel without Rec, see refused_release_safe;
+   whether a Rec is legal where it stands is checked on the complete trace of the scenario) *)
+Fixpoint zlookup (k : Z) (m : list (Z * Z)) : option Z :=
+  match m with [] => None | (k', v) :: r => if k =? k' then Some v else zlookup k r end.
+
+Fixpoint canon_go (m : list (Z * Z)) (n : Z) (t : list lc) : list lc :=
+  match t with
+  | [] => []
+  | Reacq o true :: r => canon_go (filter (fun p => negb (fst p =? o)) m) n r
+  | Rec _ :: r => canon_go m n r
+  | e :: r => match zlookup (obj e) m with
+              | Some c => ren (fun _ => c) e :: canon_go m n r
+              | None => ren (fun _ => n) e :: canon_go ((obj e, n) :: m) (n + 1) r
+              end
+  end.
+Definition canon (t : list lc) : list lc := canon_go [] 0 t.
+
+Definition lc_eqb (a b : lc) : bool :=
+  match a, b with
+  | Rel x, Rel y | Rec x, Rec y | Hold x, Hold y | AppRel x, AppRel y => x =? y
+  | Reacq x p, Reacq y q | Unhold x p, Unhold y q => (x =? y) && Bool.eqb p q
+  | _, _ => false
+  end.
+Fixpoint lcs_eqb (a b : list lc) : bool :=
+  match a, b with
+  | [], [] => true
+  | x :: r, y :: s => lc_eqb x y && lcs_eqb r s
+  | _, _ => false
+  end.
+
+(* the steps of an exchange against the model: for what was observed of each datagram (bw_kind etc.) the window
+   must be, event by event, the model's path (Pool/Model.v: bw_receive_ops; the copy of the sent request exists
+   iff a call is in progress whose sending entry has not been deleted and a block option was decoded; a reassembly entry exists iff an earlier step left
+   one), and receivingMessagesCache must hold as many entries as the model says *)
+Fixpoint bw_agrees (entries dead : list Z) (steps : list bw_step) : bool :=
+  match steps with
+  | [] => true
+  | BwStep tok call blk k wc stale n win :: r =>
+      match bw_receive_ops k (bw_has_sent_request call blk dead) (zmem tok entries) wc stale with
+      | None => false
+      | Some ops =>
+          let entries' := bw_entries_after k tok entries in
+          lcs_eqb (canon win) (canon (wtrace 0 ops)) && (Z.of_nat (length entries') =? n) &&
+          bw_agrees entries' (bw_dead_after k call dead) r
+      end
+  end.
+
+Fixpoint bw_class (steps : list bw_step) : N :=
+  match steps with
+  | [] => 0%N
+  | BwStep _ _ _ _ _ _ _ win :: r => let c := c12_class win in if N.eqb c 0 then bw_class r else c
+  end.
 
 (* the observed trace must be a run of the pool automaton: classes 1-5 are ownership violations (property),
    6 means the implementation left the automaton (recycle without release, hand-out of a non-pooled object);
@@ -19,9 +76,10 @@ Definition agrees (c : case) : bool :=
   | Trace mx t => negb (N.eqb (check t) 6) && (pooled_after t <=? mx)
   | PoolSeq mx ops => seq_ok mx 0 0 ops
   | Hung _ => false   (* the model has no hanging or panicking run *)
+  | Exchange steps => bw_agrees [] [] steps
   end.
 
-Definition pclass (c : case) : N := match c with Trace _ t | Hung t => c12_class t | PoolSeq _ _ => 0%N end.
+Definition pclass (c : case) : N := match c with Trace _ t | Hung t => c12_class t | PoolSeq _ _ => 0%N | Exchange steps => bw_class steps end.
 
 Definition mismatches (cs : list case) : list N := bad_indices (fun c => negb (agrees c)) cs.
 Definition property_failures (cs : list case) : list (N * N) := classes pclass cs.
